@@ -202,3 +202,258 @@ Corollary report_match_iff imag x0 c iin k o (truth : K) :
   (if imag then kim (an_entry (nth iin (o_dx o) None) k) = kim truth
    else kre (an_entry (nth iin (o_dx o) None) k) = kre truth).
 Proof. destruct imag; cbn; tauto. Qed.
+
+(* ------------------------------------------------------------------ stores: frames *)
+Lemma getsig_upd_eq (s : store) i g : (i < length s)%nat -> getsig (upd s i g) i = g.
+Proof. intros H. unfold getsig. apply nth_upd_eq; exact H. Qed.
+Lemma getsig_upd_neq (s : store) i j g : i <> j -> getsig (upd s i g) j = getsig s j.
+Proof. intros H. unfold getsig. apply nth_upd_neq; exact H. Qed.
+
+Lemma put_st_length i v s : length (put_st i v s) = length s.
+Proof. apply upd_length. Qed.
+Lemma put_st_se i v s j : se (getsig (put_st i v s) j) = se (getsig s j).
+Proof.
+  unfold put_st. destruct (Nat.eq_dec i j) as [<-|Hne]; [|rewrite getsig_upd_neq by exact Hne; reflexivity].
+  destruct (Nat.lt_ge_cases i (length s)) as [Hlt|Hge]; [rewrite getsig_upd_eq by exact Hlt; reflexivity|].
+  rewrite upd_oob by exact Hge. reflexivity.
+Qed.
+Lemma put_st_keep i v s j : keep (getsig (put_st i v s) j) = keep (getsig s j).
+Proof.
+  unfold put_st. destruct (Nat.eq_dec i j) as [<-|Hne]; [|rewrite getsig_upd_neq by exact Hne; reflexivity].
+  destruct (Nat.lt_ge_cases i (length s)) as [Hlt|Hge]; [rewrite getsig_upd_eq by exact Hlt; reflexivity|].
+  rewrite upd_oob by exact Hge. reflexivity.
+Qed.
+Lemma put_st_other i v s j : i <> j -> st (getsig (put_st i v s) j) = st (getsig s j).
+Proof. intros H. unfold put_st. rewrite getsig_upd_neq by exact H. reflexivity. Qed.
+Lemma put_st_same i v s : (i < length s)%nat -> st (getsig (put_st i v s) i) = v.
+Proof. intros H. unfold put_st. rewrite getsig_upd_eq by exact H. reflexivity. Qed.
+
+(* set_state writes only the state of its root *)
+Lemma set_state_length r x s : length (set_state r x s) = length s.
+Proof.
+  unfold set_state. destruct (s_slice r) as [[ix shp]|]; [|apply put_st_length].
+  destruct (st (getsig s (s_root r))); [apply put_st_length|reflexivity].
+Qed.
+Lemma set_state_se r x s j : se (getsig (set_state r x s) j) = se (getsig s j).
+Proof.
+  unfold set_state. destruct (s_slice r) as [[ix shp]|]; [|apply put_st_se].
+  destruct (st (getsig s (s_root r))); [apply put_st_se|reflexivity].
+Qed.
+Lemma set_state_keep r x s j : keep (getsig (set_state r x s) j) = keep (getsig s j).
+Proof.
+  unfold set_state. destruct (s_slice r) as [[ix shp]|]; [|apply put_st_keep].
+  destruct (st (getsig s (s_root r))); [apply put_st_keep|reflexivity].
+Qed.
+Lemma set_state_other r x s j : s_root r <> j -> st (getsig (set_state r x s) j) = st (getsig s j).
+Proof.
+  intros H. unfold set_state. destruct (s_slice r) as [[ix shp]|]; [|apply put_st_other; exact H].
+  destruct (st (getsig s (s_root r))); [apply put_st_other; exact H|reflexivity].
+Qed.
+
+(* a predicate on stores that every step of the perturbation phase preserves *)
+Definition sens_same (s s' : store) : Prop :=
+  length s' = length s /\ forall j, se (getsig s' j) = se (getsig s j) /\ keep (getsig s' j) = keep (getsig s j).
+Lemma sens_same_refl s : sens_same s s. Proof. split; auto. Qed.
+Lemma sens_same_trans a b c : sens_same a b -> sens_same b c -> sens_same a c.
+Proof.
+  intros [L1 F1] [L2 F2]. split; [congruence|]. intros j. destruct (F1 j), (F2 j). split; congruence.
+Qed.
+Lemma set_state_sens_same r x s : sens_same s (set_state r x s).
+Proof. split; [apply set_state_length|]. intros j. split; [apply set_state_se|apply set_state_keep]. Qed.
+Lemma put_st_sens_same i v s : sens_same s (put_st i v s).
+Proof. split; [apply put_st_length|]. intros j. split; [apply put_st_se|apply put_st_keep]. Qed.
+
+Lemma set_states_sens_same rs : forall vs s, sens_same s (set_states rs vs s).
+Proof.
+  induction rs as [|r rs IH]; intros [|[v|] vs] s; cbn; try apply sens_same_refl.
+  - eapply sens_same_trans; [apply set_state_sens_same|apply IH].
+  - eapply sens_same_trans; [|apply IH]. destruct (s_slice r); [apply sens_same_refl|apply put_st_sens_same].
+Qed.
+Lemma m_response_sens_same m s : sens_same s (m_response m s).
+Proof. apply set_states_sens_same. Qed.
+Lemma n_response_sens_same n : forall s, sens_same s (n_response n s).
+Proof.
+  unfold n_response. induction n as [|m n IH]; intros s; cbn; [apply sens_same_refl|].
+  eapply sens_same_trans; [apply m_response_sens_same|apply IH].
+Qed.
+
+(* the whole perturbation phase leaves every sensitivity (and allocation flag) untouched *)
+Lemma perturb_entries_sens_same c blk si iin outps f0 df dxan x : forall ks s,
+  sens_same s (fst (perturb_entries c blk si iin outps f0 df dxan x ks s)).
+Proof.
+  induction ks as [|k ks IH]; intros s; cbn [perturb_entries]; [apply sens_same_refl|].
+  destruct (kzero (nth k (v_dat x) k0) && c_keepzero c && is_arr x); [apply IH|].
+  set (sf := if c_rel c && negb (Qc_eqb (kabs (nth k (v_dat x) k0)) 0) then kabs (nth k (v_dat x) k0) else 1).
+  set (s1 := set_state si _ s). set (s2 := n_response blk s1). set (s3 := set_state si _ s2).
+  assert (H3 : sens_same s s3).
+  { eapply sens_same_trans; [apply set_state_sens_same|]. eapply sens_same_trans; [apply n_response_sens_same|].
+    apply set_state_sens_same. }
+  destruct (v_cx x).
+  - set (s4 := set_state si _ s3). set (s5 := n_response blk s4). set (s6 := set_state si _ s5).
+    assert (H6 : sens_same s s6).
+    { eapply sens_same_trans; [exact H3|]. eapply sens_same_trans; [apply set_state_sens_same|].
+      eapply sens_same_trans; [apply n_response_sens_same|]. apply set_state_sens_same. }
+    specialize (IH s6). destruct (perturb_entries c blk si iin outps f0 df dxan x ks s6) as [s7 rest]. cbn [fst] in *.
+    eapply sens_same_trans; eauto.
+  - specialize (IH s3). destruct (perturb_entries c blk si iin outps f0 df dxan x ks s3) as [s7 rest]. cbn [fst] in *.
+    eapply sens_same_trans; eauto.
+Qed.
+
+Lemma perturb_inputs_sens_same c blk outps f0 df dxan : forall inps iin s,
+  sens_same s (fst (perturb_inputs c blk inps iin outps f0 df dxan s)).
+Proof.
+  induction inps as [|si inps IH]; intros iin s; cbn [perturb_inputs]; [apply sens_same_refl|].
+  destruct (get_state si s) as [x|]; [|apply IH].
+  pose proof (perturb_entries_sens_same c blk si iin outps f0 df dxan x
+                (if is_arr x then nth iin (c_order c) [] else [0%nat]) s) as H1.
+  destruct (perturb_entries c blk si iin outps f0 df dxan x _ s) as [s1 rep]. cbn [fst] in H1.
+  specialize (IH (S iin) s1). destruct (perturb_inputs c blk inps (S iin) outps f0 df dxan s1) as [s2 rest].
+  cbn [fst] in *. eapply sens_same_trans; eauto.
+Qed.
+
+(* ------------------------------------------------------------------ restoration of the input states *)
+Lemma upd_upd_same {A} (l : list A) i u v : upd (upd l i u) i v = upd l i v.
+Proof. revert i; induction l as [|h t IH]; intros [|i]; cbn; auto. f_equal. apply IH. Qed.
+Lemma upd_upd_comm {A} (l : list A) i j u v : i <> j -> upd (upd l i u) j v = upd (upd l j v) i u.
+Proof.
+  revert i j; induction l as [|h t IH]; intros [|i] [|j] H; cbn; auto; try congruence. f_equal. apply IH. congruence.
+Qed.
+Lemma upd_scatter_comm ix : forall d us i v, ~ In i ix -> upd (scatter d ix us) i v = scatter (upd d i v) ix us.
+Proof.
+  induction ix as [|j ix IH]; intros d [|u us] i v H; cbn; auto.
+  rewrite IH by (intro; apply H; right; assumption).
+  rewrite upd_upd_comm; [reflexivity|]. intro; apply H; left; congruence.
+Qed.
+Lemma scatter_scatter ix : forall d us vs, NoDup ix -> length us = length ix -> length vs = length ix ->
+  scatter (scatter d ix us) ix vs = scatter d ix vs.
+Proof.
+  induction ix as [|i ix IH]; intros d [|u us] [|v vs] Hnd Hu Hv; cbn in *; try discriminate; auto.
+  inversion Hnd as [|? ? Hni Hnd']; subst.
+  rewrite upd_scatter_comm by exact Hni. rewrite upd_upd_same. apply IH; auto.
+Qed.
+Lemma scatter_gather d : forall ix, scatter d ix (gather d ix) = d.
+Proof.
+  induction ix as [|i ix IH]; cbn; auto. rewrite upd_same. exact IH.
+Qed.
+Lemma bcast_len n d : length d = n -> bcast n d = d.
+Proof.
+  intros H. destruct d as [|x [|y d]]; cbn; auto. cbn in H. subst. reflexivity.
+Qed.
+Lemma gather_length d ix : length (gather d ix) = length ix.
+Proof. apply map_length. Qed.
+
+Lemma with_entry_same x k : with_entry x k (nth k (v_dat x) k0) = x.
+Proof. unfold with_entry. rewrite upd_same. destruct x; reflexivity. Qed.
+
+(* the value FD reads for an input reference whose root holds b *)
+Definition xval (si : sref) (b : val) : val :=
+  match s_slice si with None => b | Some (ix, shp) => slice_of b ix shp end.
+Definition ref_wf (si : sref) : Prop :=
+  match s_slice si with None => True | Some (ix, _) => NoDup ix end.
+(* the sub-network does not write the state of root j *)
+Definition resp_pres (blk : net) (j : nat) : Prop := forall s, st (getsig (n_response blk s) j) = st (getsig s j).
+
+Lemma n_response_length n s : length (n_response n s) = length s.
+Proof. apply n_response_sens_same. Qed.
+
+(* perturb one entry (by anything), evaluate, write the original entry back: the root holds exactly b again *)
+Lemma entry_roundtrip blk si s b k a :
+  ref_wf si -> (s_root si < length s)%nat -> st (getsig s (s_root si)) = Some b -> resp_pres blk (s_root si) ->
+  let x := xval si b in
+  let s2 := n_response blk (set_state si (with_entry x k a) s) in
+  let s3 := set_state si (with_entry x k (nth k (v_dat x) k0)) s2 in
+  st (getsig s3 (s_root si)) = Some b /\ length s3 = length s /\
+  (forall j, j <> s_root si -> st (getsig s3 j) = st (getsig s2 j)).
+Proof.
+  intros Hwf Hlt Hst Hpres x s2 s3.
+  assert (Hlen2 : length s2 = length s) by (unfold s2; rewrite n_response_length, set_state_length; reflexivity).
+  split; [|split; [unfold s3; rewrite set_state_length; exact Hlen2|intros j Hj; apply set_state_other; congruence]].
+  unfold s3. rewrite with_entry_same.
+  unfold xval, ref_wf in *. unfold set_state at 1. destruct (s_slice si) as [[ix shp]|] eqn:Esl.
+  - (* through a slice *)
+    assert (Hst2 : st (getsig s2 (s_root si)) = Some (assign_into b ix (with_entry (slice_of b ix shp) k a))).
+    { unfold s2. rewrite Hpres. unfold set_state. rewrite Esl, Hst. apply put_st_same; exact Hlt. }
+    rewrite Hst2. rewrite put_st_same by lia. f_equal.
+    unfold assign_into, with_entry, slice_of; cbn [v_dat v_kind v_cx].
+    rewrite (bcast_len (length ix) (upd (gather (v_dat b) ix) k a)) by (rewrite upd_length; apply gather_length).
+    change (v_dat x) with (gather (v_dat b) ix).
+    rewrite (bcast_len (length ix) (gather (v_dat b) ix)) by apply gather_length.
+    rewrite scatter_scatter; [|exact Hwf|rewrite upd_length; apply gather_length|apply gather_length].
+    rewrite scatter_gather. destruct b; reflexivity.
+  - rewrite put_st_same by lia. reflexivity.
+Qed.
+
+Theorem perturb_entries_restores c blk si iin outps f0 df dxan b : forall ks s,
+  ref_wf si -> (s_root si < length s)%nat -> st (getsig s (s_root si)) = Some b -> resp_pres blk (s_root si) ->
+  let s' := fst (perturb_entries c blk si iin outps f0 df dxan (xval si b) ks s) in
+  st (getsig s' (s_root si)) = Some b /\ length s' = length s.
+Proof.
+  induction ks as [|k ks IH]; intros s Hwf Hlt Hst Hpres; cbn [perturb_entries]; [cbn; auto|].
+  set (x := xval si b) in *.
+  destruct (kzero (nth k (v_dat x) k0) && c_keepzero c && is_arr x); [apply IH; assumption|].
+  set (sf := if c_rel c && negb (Qc_eqb (kabs (nth k (v_dat x) k0)) 0) then kabs (nth k (v_dat x) k0) else 1).
+  destruct (entry_roundtrip blk si s b k (kaddr (nth k (v_dat x) k0) (c_dx c * sf)) Hwf Hlt Hst Hpres) as (A1 & A2 & _).
+  fold x in A1, A2.
+  set (s3 := set_state si (with_entry x k (nth k (v_dat x) k0))
+                       (n_response blk (set_state si (with_entry x k (kaddr (nth k (v_dat x) k0) (c_dx c * sf))) s))) in *.
+  destruct (v_cx x).
+  - assert (Hlt3 : (s_root si < length s3)%nat) by lia.
+    destruct (entry_roundtrip blk si s3 b k (kaddi (nth k (v_dat x) k0) (c_dx c * sf)) Hwf Hlt3 A1 Hpres) as (B1 & B2 & _).
+    fold x in B1, B2.
+    set (s6 := set_state si (with_entry x k (nth k (v_dat x) k0))
+                         (n_response blk (set_state si (with_entry x k (kaddi (nth k (v_dat x) k0) (c_dx c * sf))) s3))) in *.
+    assert (Hlt6 : (s_root si < length s6)%nat) by lia.
+    specialize (IH s6 Hwf Hlt6 B1 Hpres). cbn zeta in IH.
+    destruct (perturb_entries c blk si iin outps f0 df dxan x ks s6) as [s7 rest]. cbn [fst] in *.
+    destruct IH as [I1 I2]. split; [exact I1|lia].
+  - assert (Hlt3 : (s_root si < length s3)%nat) by lia.
+    specialize (IH s3 Hwf Hlt3 A1 Hpres). cbn zeta in IH.
+    destruct (perturb_entries c blk si iin outps f0 df dxan x ks s3) as [s7 rest]. cbn [fst] in *.
+    destruct IH as [I1 I2]. split; [exact I1|lia].
+Qed.
+
+(* ... and perturbing through one reference does not disturb the state of any OTHER root the sub-network does not write *)
+Lemma perturb_entries_other c blk si iin outps f0 df dxan x j : forall ks s,
+  s_root si <> j -> resp_pres blk j ->
+  st (getsig (fst (perturb_entries c blk si iin outps f0 df dxan x ks s)) j) = st (getsig s j).
+Proof.
+  induction ks as [|k ks IH]; intros s Hne Hpres; cbn [perturb_entries]; [reflexivity|].
+  destruct (kzero (nth k (v_dat x) k0) && c_keepzero c && is_arr x); [apply IH; assumption|].
+  set (sf := if c_rel c && negb (Qc_eqb (kabs (nth k (v_dat x) k0)) 0) then kabs (nth k (v_dat x) k0) else 1).
+  set (s1 := set_state si _ s). set (s2 := n_response blk s1). set (s3 := set_state si _ s2).
+  assert (H3 : st (getsig s3 j) = st (getsig s j)).
+  { unfold s3. rewrite set_state_other by exact Hne. unfold s2. rewrite Hpres. unfold s1. apply set_state_other; exact Hne. }
+  destruct (v_cx x).
+  - set (s4 := set_state si _ s3). set (s5 := n_response blk s4). set (s6 := set_state si _ s5).
+    assert (H6 : st (getsig s6 j) = st (getsig s j)).
+    { unfold s6. rewrite set_state_other by exact Hne. unfold s5. rewrite Hpres. unfold s4.
+      rewrite set_state_other by exact Hne. exact H3. }
+    specialize (IH s6 Hne Hpres). destruct (perturb_entries c blk si iin outps f0 df dxan x ks s6) as [s7 rest].
+    cbn [fst] in *. congruence.
+  - specialize (IH s3 Hne Hpres). destruct (perturb_entries c blk si iin outps f0 df dxan x ks s3) as [s7 rest].
+    cbn [fst] in *. congruence.
+Qed.
+
+(* after the whole perturbation phase every root the sub-network does not write holds its original state exactly *)
+Theorem perturb_inputs_restores c blk outps f0 df dxan j : forall inps iin s,
+  Forall ref_wf inps -> Forall (fun si => (s_root si < length s)%nat) inps -> resp_pres blk j ->
+  st (getsig (fst (perturb_inputs c blk inps iin outps f0 df dxan s)) j) = st (getsig s j).
+Proof.
+  induction inps as [|si inps IH]; intros iin s Hwf Hlt Hpres; cbn [perturb_inputs]; [reflexivity|].
+  inversion Hwf as [|? ? Hwf1 Hwf']; subst. inversion Hlt as [|? ? Hlt1 Hlt']; subst.
+  destruct (get_state si s) as [x|] eqn:Eg; [|apply IH; assumption].
+  set (ks := if is_arr x then nth iin (c_order c) [] else [0%nat]).
+  assert (Hs1 : st (getsig (fst (perturb_entries c blk si iin outps f0 df dxan x ks s)) j) = st (getsig s j) /\
+                length (fst (perturb_entries c blk si iin outps f0 df dxan x ks s)) = length s).
+  { split; [|apply perturb_entries_sens_same].
+    destruct (Nat.eq_dec (s_root si) j) as [<-|Hne]; [|apply perturb_entries_other; assumption].
+    unfold get_state in Eg. destruct (st (getsig s (s_root si))) as [b|] eqn:Eb; [|discriminate].
+    assert (Hx : x = xval si b).
+    { unfold xval. destruct (s_slice si) as [[ix shp]|]; inversion Eg; reflexivity. }
+    subst x. apply (perturb_entries_restores c blk si iin outps f0 df dxan b ks s Hwf1 Hlt1 Eb Hpres). }
+  destruct (perturb_entries c blk si iin outps f0 df dxan x ks s) as [s1 rep]. cbn [fst] in Hs1. destruct Hs1 as [Hs1 Hl1].
+  specialize (IH (S iin) s1 Hwf'). 
+  assert (Hlt1' : Forall (fun si0 => (s_root si0 < length s1)%nat) inps) by (rewrite Hl1; exact Hlt').
+  specialize (IH Hlt1' Hpres).
+  destruct (perturb_inputs c blk inps (S iin) outps f0 df dxan s1) as [s2 rest]. cbn [fst] in *. congruence.
+Qed.
